@@ -22,7 +22,7 @@ type seed struct {
 }
 
 var seeds = []seed{
-	{"frozenView adds up the announced run elements in int", "T2", "serialization_littleendian.go", "\tvar nArrayEl, nRunEl uint64\n", "\tvar nArrayEl uint64\n\tvar nRunEl uint\n", "frozenView|total nRunEl"},
+	{"frozenView adds up the announced element totals in int", "T2", "serialization_littleendian.go", "\tvar nArrayEl, nRunEl uint64\n\tfor i, t := range types {\n\t\tswitch t {\n\t\tcase 1:\n\t\t\tnBitmap++\n\t\tcase 2:\n\t\t\tnArray++\n\t\t\tnArrayEl += uint64(counts[i]) + 1\n\t\tcase 3:\n\t\t\tnRun++\n\t\t\tnRunEl += uint64(counts[i])\n\t\tdefault:\n\t\t\treturn ErrFrozenBitmapInvalidTypecode\n\t\t}\n\t}\n\n\tif uint64(len(buf)) < (1<<13)*uint64(nBitmap)+4*nRunEl+2*nArrayEl {\n", "\tnArrayEl, nRunEl := 0, 0\n\tfor i, t := range types {\n\t\tswitch t {\n\t\tcase 1:\n\t\t\tnBitmap++\n\t\tcase 2:\n\t\t\tnArray++\n\t\t\tnArrayEl += int(counts[i]) + 1\n\t\tcase 3:\n\t\t\tnRun++\n\t\t\tnRunEl += int(counts[i])\n\t\tdefault:\n\t\t\treturn ErrFrozenBitmapInvalidTypecode\n\t\t}\n\t}\n\n\tif len(buf) < (1<<13)*nBitmap+4*nRunEl+2*nArrayEl {\n", "frozenView|total"},
 	{"64-bit BSI.Add reads the operand also when it is the receiver", "F10.bsi", "roaring64/bsi64.go", "\tif other == b {\n\t\t// doubling: the carries rewrite the planes that are still to be read\n\t\tother = b.Clone()\n\t}\n\n\tb.eBM.Or(&other.eBM)", "\tb.eBM.Or(&other.eBM)", "(*roaring64.BSI).Add|self-application"},
 	{"PreviousValue steps its chunk index in the for clause and in the body", "LP1", "roaring.go", "\tfor containerIndex != -1 && prevValue == -1 {\n", "\tfor ; containerIndex >= 0 && prevValue == -1; containerIndex-- {\n", "PreviousValue|for containerIndex"},
 	{"AndAny continues to the next key before emptying its filter list", "LP2", "fastaggregation.go", "\t\tif !result.isEmpty() {\n\t\t\tx1.highlowcontainer.replaceKeyAndContainerAtIndex(intersections, baseKey, result, false)\n\t\t\tintersections++\n\t\t}\n", "\t\tif result.isEmpty() {\n\t\t\tbasePos = x1.highlowcontainer.advanceUntil(minNextKey, basePos)\n\t\t\tcontinue\n\t\t}\n\t\tx1.highlowcontainer.replaceKeyAndContainerAtIndex(intersections, baseKey, result, false)\n\t\tintersections++\n", "AndAny|scratch list"},
@@ -65,7 +65,7 @@ var seeds = []seed{
 	{"a container table is overlaid on byte memory", "UNS1", "serialization_littleendian.go", "// FrozenView creates a static view of a serialized bitmap stored in buf.\n", "func byteSliceAsContainerTable(slice []byte) []container {\n\treturn unsafe.Slice((*container)(unsafe.Pointer(unsafe.SliceData(slice))), len(slice)/16)\n}\n\n// FrozenView creates a static view of a serialized bitmap stored in buf.\n", "byteSliceAsContainerTable"},
 	{"roaring64.ParOr feeds its workers from the coordinating goroutine", "P6", "roaring64/parallel64.go", "\tgo func() {\n\t\tfor i := int64(0); i < chunkCount; i++ {", "\tfunc() {\n\t\tfor i := int64(0); i < chunkCount; i++ {", "roaring64.ParOr|feeding loop"},
 	{"arrayContainer.addOffset returns typed nil halves", "F6", "arraycontainer.go", "\t// Ensure proper nil interface.\n\tif low == nil {\n\t\treturn nil, high\n\t}\n\tif high == nil {\n\t\treturn low, nil\n\t}\n\n\treturn low, high\n", "\treturn low, high\n", "addOffset"},
-	{"frozenView checks the type code with an upper bound only", "L4", "serialization_littleendian.go", "\t\t\tnRunEl += int(counts[i])\n\t\tdefault:\n\t\t\treturn ErrFrozenBitmapInvalidTypecode\n\t\t}", "\t\t\tnRunEl += int(counts[i])\n\t\t}\n\t\tif t > 3 {\n\t\t\treturn ErrFrozenBitmapInvalidTypecode\n\t\t}", "type codes checked exhaustively"},
+	{"frozenView checks the type code with an upper bound only", "L4", "serialization_littleendian.go", "\t\t\tnRunEl += uint64(counts[i])\n\t\tdefault:\n\t\t\treturn ErrFrozenBitmapInvalidTypecode\n\t\t}", "\t\t\tnRunEl += uint64(counts[i])\n\t\t}\n\t\tif t > 3 {\n\t\t\treturn ErrFrozenBitmapInvalidTypecode\n\t\t}", "type codes checked exhaustively"},
 	{"readFrom reuses keys under the capacity test of containers", "T1", "roaringarray.go", "\tif cap(ra.keys) >= int(size) {\n", "\tif cap(ra.containers) >= int(size) {\n", "reslice roaringArray.keys"},
 	{"FromDense extends the caller's words up to their capacity", "B6", "roaring.go", "func (rb *Bitmap) FromDense(bitmap []uint64, doCopy bool) {\n", "func (rb *Bitmap) FromDense(bitmap []uint64, doCopy bool) {\n\tif cap(bitmap) > len(bitmap) && cap(bitmap)%1024 == 0 {\n\t\tbitmap = bitmap[:cap(bitmap)]\n\t}\n", "FromDense|param:bitmap"},
 	{"Unset creates its iterator outside the sequence function", "F12", "iter.go", "\treturn func(yield func(uint32) bool) {\n\t\tit := b.UnsetIterator(uint64(min), uint64(max)+1)\n", "\tit := b.UnsetIterator(uint64(min), uint64(max)+1)\n\treturn func(yield func(uint32) bool) {\n", "roaring.Unset"},
